@@ -498,6 +498,7 @@ type JOSEInput struct {
 	Foreign        JOSEKey // ANOTHER party whose key the consumer can resolve under Foreign.Kid
 	Rogue          JOSEKey // attacker key that nothing resolves
 	FlipStride     int     // payload-segment flip stride (header and signature segments are always flipped at every position); <=1: every position
+	FlipAllBits    bool    // flip each of the six bits of every flipped character (default: the lowest bit; all six only in the last two characters)
 	// KeepHeader lists protected-header members the re-signing variants must not drop (default: all are kept).
 	NoJSON bool // consumer input cannot carry JSON serialisations at all (skips nothing, only a hint)
 }
@@ -821,7 +822,7 @@ func JOSEVariants(in JOSEInput) ([]JOSEVariant, error) {
 				continue
 			}
 			xors := []int{1}
-			if i >= len(s)-2 {
+			if i >= len(s)-2 || in.FlipAllBits {
 				xors = []int{1, 2, 4, 8, 16, 32} // the last characters carry padding bits: flip every bit
 			}
 			for _, x := range xors {
